@@ -139,6 +139,15 @@ NATIVE_SANITIZER_PROPS = {"C01", "C03", "C11", "C17"}
 def jobs(prop, tier):
     quick = tier == "quick"
     js = []
+    # the interpreter / sanitizer jobs first: they have the longest fixed duration
+    if prop in MIRI_PROPS:
+        if quick:
+            js.append(_job("A-miri", "A", "miri", range(6), 1.0, 30, optional=True, slack=4))
+        else:
+            js.append(_job("A-miri", "A", "miri", range(NSHARDS), 1.0, 360, optional=True, slack=3))
+    if not quick and prop in NATIVE_SANITIZER_PROPS:
+        js.append(_job("B-valgrind", "B", "valgrind", [1, 6, 9, 14], 0.01, 300, optional=True, slack=3))
+        js.append(_job("B-asan", "B", "asan", range(NSHARDS), 0.25, 200, optional=True))
     if quick:
         js.append(_job("B-release", "B", "release", range(NSHARDS), 1.0, 40))
         if prop in HISTORY_PROPS:
